@@ -10,6 +10,7 @@
 #include <chrono>
 #include <cstdlib>
 #include <cstring>
+#include <filesystem>
 #include <fstream>
 #include <iostream>
 #include <set>
@@ -82,7 +83,7 @@ std::string tag() { return g.target + "-" + std::to_string(g.worker); }
 
 void flush_stats()
 {
-    if (g.mode != "gen" && g.mode != "enumerate") return;
+    if (g.mode != "gen" && g.mode != "enumerate" && g.mode != "corpus") return;
     double wall = std::chrono::duration<double>(std::chrono::steady_clock::now() - g.t0).count();
     std::ofstream f(g.outdir + "/stats-" + tag() + ".json", std::ios::trunc);
     f << "{\"target\":\"" << g.target << "\",\"worker\":" << g.worker << ",\"mode\":\"" << g.mode << "\",\"seed\":" << g.seed
@@ -233,7 +234,7 @@ static int usage()
 
 int main(int argc, char** argv)
 {
-    std::string replay_file;
+    std::string replay_file, corpus_dir;
     bool verbose = true, replay_enum = false;
     for (int i = 1; i < argc; ++i) {
         std::string a = argv[i];
@@ -243,6 +244,7 @@ int main(int argc, char** argv)
         else if (a == "--gen") g.mode = "gen";
         else if (a == "--enumerate") g.mode = "enumerate";
         else if (a == "--replay") { g.mode = "replay"; replay_file = next(); }
+        else if (a == "--corpus") { g.mode = "corpus"; corpus_dir = next(); }
         else if (a == "--replay-enum") { g.mode = "replay"; replay_enum = true; replay_file = next(); }
         else if (a == "--seed") g.seed = std::stoull(next());
         else if (a == "--worker") g.worker = std::stoi(next());
@@ -277,6 +279,27 @@ int main(int argc, char** argv)
             std::cout << "NONTRIVIAL " << (st.nontrivial ? 1 : 0) << " steps=" << st.steps << " shape=" << st.shape << "\n";
         }
         std::cout << "REPLAY-OK\n";
+        return 0;
+    }
+
+    if (g.mode == "corpus") {
+        // measure a corpus (e.g. the one a libFuzzer campaign produced): every file is one case, accounted like generated cases
+        std::vector<std::string> files;
+        for (auto& e : std::filesystem::directory_iterator(corpus_dir)) if (e.is_regular_file()) files.push_back(e.path().string());
+        std::sort(files.begin(), files.end());
+        g.mode = "gen"; // stats/fail files are written as in gen mode
+        uint64_t i = 0;
+        for (auto& fn : files) {
+            if ((i++ % g.nworkers) != uint64_t(g.worker)) continue;
+            std::ifstream f(fn, std::ios::binary);
+            std::vector<uint8_t> b((std::istreambuf_iterator<char>(f)), std::istreambuf_iterator<char>());
+            g.cur = b.data(); g.cur_len = b.size(); g.cur_index = i;
+            Stats st;
+            run_one(t, b.data(), b.size(), st);
+            account(t, b.data(), b.size(), i, st);
+        }
+        g.stopped_by = "corpus";
+        flush_stats();
         return 0;
     }
 
